@@ -27,3 +27,8 @@ func (l *QueueBlockingLimiter) VerifBacklogLen() int {
 func (l *QueueBlockingLimiter) VerifOrdering() QueueOrdering {
 	return l.backlog.ordering
 }
+
+// VerifBacklogConfig returns the backlog bound and timeout in force.
+func (l *QueueBlockingLimiter) VerifBacklogConfig() (maxSize uint64, timeoutNs int64) {
+	return l.maxBacklogSize, int64(l.maxBacklogTimeout)
+}
